@@ -108,8 +108,8 @@ def make_inputs(seed, tier):
     rnd = random.Random(seed)
     cf = corpus_files()
     tiny = [c for c in cf if c[2] and len(c[1]) < 6000]
-    big = [c for c in cf if not c[2] and len(c[1]) < 9000]
-    n_tiny, n_gen, n_bad, n_corpus, gsize = (9, 6, 3, 6, 3) if tier == "quick" else (54, 90, 24, 132, 3)
+    big = [c for c in cf if not c[2] and len(c[1]) < 20000]     # measured: every one compiles in < 0.5 s of CPU
+    n_tiny, n_gen, n_bad, n_corpus, gsize = (9, 6, 3, 6, 3) if tier == "quick" else (57, 90, 24, 300, 3)
     rnd.shuffle(tiny)
     rnd.shuffle(big)
     groups = []
@@ -161,7 +161,15 @@ def make_inputs(seed, tier):
                 marked += 1
     # corpus programs over the library: plain and with planted errors
     c_err = [c for c in big if "TestErrorsToo" in c[1]]
-    add("corpus", [corpus_input(c, "corpus", "c") for c in big[:n_corpus]])
+    cin = [corpus_input(c, "corpus", "c") for c in big[:n_corpus]]
+    if tier == "quick":
+        add("corpus", cin)
+    else:
+        # the optimiser and the inliner walk tables too: a third of the corpus is compiled at other levels
+        third = len(cin) // 3
+        add("corpus", cin[:len(cin) - third])
+        add("cq3_", cin[len(cin) - third:len(cin) - third // 2], ["-Q3"])
+        add("cq0_", cin[len(cin) - third // 2:], ["-Q0"])
     add("corpuserr", [corpus_input(c, "corpus", "ce") for c in c_err[:max(3, n_corpus // 3)]], ["-DTestErrorsToo"])
     return groups
 
